@@ -23,14 +23,15 @@ METHODS = ("nearest", "backward", "forward")
 
 def ext_len(ex, st, args, kwargs, node):
     (a,) = args
-    if not isinstance(a, (wp.Arr, wp.View)):
+    if not isinstance(a, (wp.Arr, wp.View, wp.ColView, wp.LazyArr)):
         raise wp.Unsupported("len of a non-array")
     return a.shape[0]
 
 
 def ext_min(ex, st, args, kwargs, node):
-    k = ext_argmin(ex, st, args, kwargs, node)
-    return args[0].sel(st.heap, k)
+    a = wp.materialise(st, args[0], "min_arg")
+    k = ext_argmin(ex, st, [a], kwargs, node)
+    return a.sel(st.heap, k)
 
 
 def permitted(method, t, x):
